@@ -93,6 +93,7 @@ func checkFlow(p flowParams, x *verifkit.Exec) []verifkit.Violation {
 	forceRet, stopwaitNil, stopRet := -1, -1, -1
 	statusAtForce := ""
 	runEndedBeforeForce := false
+	forceCalled := false
 	failuresInRun := 0
 	teardownSeq := map[string]int{}
 	for _, e := range a.evs {
@@ -117,6 +118,9 @@ func checkFlow(p flowParams, x *verifkit.Exec) []verifkit.Violation {
 							a.bad("C02/position-covers-unhandled", "commit #%d stores position %d for %s although record %d has not been confirmed by %s (nor dead-lettered/filtered): a crash now loses it (event #%d)", e.Idx, q, s, i, missing, e.Seq)
 							if k := (recKey{s, i}); nackedInEpoch[k] || dlqNacked[k] {
 								a.bad("C07/rejected-record-covered-by-position", "commit #%d (event #%d) stores position %d for %s: it covers record %d, which was rejected and has no confirmed DLQ write - the record is lost", e.Idx, e.Seq, q, s, i)
+							}
+							if forceCalled {
+								a.bad("C12/unhandled-record-acknowledged", "after the force stop, commit #%d (event #%d) stores position %d for %s although record %d was never confirmed by %s (nor dead-lettered): the force stop caused a record to be acknowledged that was not handled", e.Idx, e.Seq, q, s, i, missing)
 							}
 							a.bad("C03/crash-loses-record", "a crash right after commit #%d (event #%d) loses record %d of %s: the stored position is %d but %s never confirmed it", e.Idx, e.Seq, i, s, q, missing)
 							break
@@ -184,6 +188,9 @@ func checkFlow(p flowParams, x *verifkit.Exec) []verifkit.Violation {
 			srcAckSeq[k] = e.Seq
 			if ok, missing := handled(k); !ok {
 				a.bad("C01/ack-before-destination", "source %s was told record %d is acknowledged before destination %s (or the DLQ) confirmed it (event #%d)", e.Comp, e.Idx, missing, e.Seq)
+				if forceCalled {
+					a.bad("C12/unhandled-record-acknowledged", "after the force stop source %s was told record %d is acknowledged although %s never confirmed it (event #%d)", e.Comp, e.Idx, missing, e.Seq)
+				}
 			}
 			if dlqNacked[k] && !dlqOK[k] {
 				a.bad("C07/ack-after-failed-dlq-write", "record %d of %s was acknowledged although its DLQ write was rejected (event #%d)", e.Idx, e.Comp, e.Seq)
@@ -242,6 +249,7 @@ func checkFlow(p flowParams, x *verifkit.Exec) []verifkit.Violation {
 		case e.Comp == "proc" && e.Kind == "filter":
 			filtered[recKey{e.Arg, e.Idx}] = true
 		case e.Comp == "ctl" && e.Kind == "call" && e.Arg == "force":
+			forceCalled = true
 			for c, n := range opens {
 				if n > 0 && teardowns[c] >= n {
 					runEndedBeforeForce = true // a connector of the current run is already torn down: the run is ending on its own
